@@ -26,6 +26,8 @@
  Re for-each      : loops that act on every item are never left early (break / return).
  R7 selected budget: power reduction of the SELECTED model; cached span loss includes the padding (shared with C10-R3, C17-R6).
  Rn arg roles     : a variable named like a parameter of the callee is handed to that parameter (no exchanged roles).
+ R8 design helpers: span walk class pairs (shared with C08-R7); dual-stage composite p_max / gain (shared with C04-R9).
+ Rz sentinel      : fields defaulted when None are None when absent from the input (loader .get without another default).
 """
 import ast
 
@@ -442,6 +444,23 @@ def rn_arg_roles(ctx):
     ctx.check('Rn.arg-roles', 'argument / parameter name scan', True, 'C09|arg-roles-scan', '', f'{n} argument(s) named like another parameter judged')
 
 
+def r8_design_helpers(ctx):
+    """R8: helpers the budget relies on: the span walk behind span_loss continues over exactly the (Fused, Fused|fibre) class pairs
+    (C08-R7), and the power limit / gain range of a dual-stage model are those of the cascade (C04-R9)"""
+    from .c08 import r7_span_walk
+    from .common import dual_stage_rule, proxy
+    r7_span_walk(proxy(ctx, 'R8'))
+    dual_stage_rule(ctx, 'R8.dual-stage-params', 'the design would reduce the power against the limit of the wrong stage')
+
+
+def rs_sentinel(ctx):
+    """Rz: a field that the design fills with a configured default when it is None (connector losses ...) is None when the input does
+    not give it: its loader uses .get('<field>') without another default"""
+    from ..presence import sentinel_rule
+    sentinel_rule(ctx, 'Rz.sentinel', 'the loss budget would be closed with 0 instead of the configured default')
+    ctx.need('Rz.sentinel', 2)
+
+
 from ..memo import rule_for as _memo_rule
 
 RULES_MEMO = ('Rm.memo', _memo_rule('C09', 'the operating point designed for another element or reference would be reused'))
@@ -451,4 +470,4 @@ from ..presence import rule_for as _presence_rule
 
 RULES_PRESENCE = ('Rp.presence', _presence_rule('C09', 'a configured power / gain / VOA of exactly 0 would be replaced by another value in the budget'))
 
-RULES = [('R6.span-loss', r6_span_loss), ('R1.budget', r1_budget), ('R2.rule', r2_rule), ('R3.saturation', r3_saturation), ('R4.voa', r4_voa), ('R5.chaining', r5_chaining), RULES_MEMO, RULES_PRESENCE, ('Rv.verbose-pure', rv_verbose), ('Re.for-each', re_foreach), ('R7.selected-budget', r7_selected_budget), ('Rn.arg-roles', rn_arg_roles)]
+RULES = [('R6.span-loss', r6_span_loss), ('R1.budget', r1_budget), ('R2.rule', r2_rule), ('R3.saturation', r3_saturation), ('R4.voa', r4_voa), ('R5.chaining', r5_chaining), RULES_MEMO, RULES_PRESENCE, ('Rv.verbose-pure', rv_verbose), ('Re.for-each', re_foreach), ('R7.selected-budget', r7_selected_budget), ('Rn.arg-roles', rn_arg_roles), ('R8.design-helpers', r8_design_helpers), ('Rz.sentinel', rs_sentinel)]
